@@ -53,6 +53,9 @@ def gen_history(seed, tier, *, n_ops=(2, 6), genkw=None,
                 # ahead of every clock (a skewed writer, a touched file): later writes are later still
                 future_done[0] = True
                 ops.append(dict(op="future", store=rng.choice(deletable)))
+            elif not future_done[0] and rng.random() < 0.06:
+                future_done[0] = True
+                ops.append(dict(op="epoch0"))
         elif k == "fail":
             cfg = _cfg(rng, world)
             faults = dict(calls=worldgen.gen_call_faults(rng, world, p_fail=0.2, excs=("E1", "E2", "B1")),
